@@ -53,6 +53,7 @@ Unary(x) ==
                   a \in {b \in AnnNames: /\ (b = "SelfAdjoint" \/ (ShapeOf(x)[1] <= 4 /\ ShapeOf(x)[2] <= 4))
                                          /\ Holds(b, Denote(x))}}   \* (exact PSD test: 2^n minors, dims <= 4)
           ELSE {})
+    \cup (IF "SelfProd" \in Acts THEN {N("SelfProd", <<x>>, NoP)} ELSE {})
     \cup (IF "Gram" \in Acts
           THEN {N("GramT", <<x>>, NoP), N("GramH", <<x>>, NoP), N("GramHr", <<x>>, NoP)} ELSE {})
     \cup (IF "op_getitem" \in Acts
